@@ -507,6 +507,8 @@ class Parser:
             return ast.literal_eval(token.string)
         except SyntaxError as e:  # e.g. non-ASCII bytes, bad \N{...}: report it where the literal is
             self.raise_syntax_error_known_location(e.msg, token)
+        except UnicodeEncodeError as e:  # a lone surrogate in the source text
+            self.raise_syntax_error_known_location(f"(unicode error) {e}", token)
 
     def _concat_strings_in_constant(self, parts: list[TokenInfo]) -> ast.Constant:
         s = self._eval_string(parts[0])
